@@ -460,6 +460,16 @@ theorem step_preserves_independence (W : World) (hW : WF W) (hs : W.shared = [])
             rw [hw]
             exact hwf
 
+/-- … also a list operation whose new occurrences still have to pass the field's checks: it is either a list surgery
+    or nothing at all -/
+theorem checked_step_preserves_independence (W : World) (hW : WF W) (hs : W.shared = []) (subs : List Scalar) (now : Str)
+    (r : Nat) (fld : String) (wires : List (List (Option Str))) (sel : List (Nat ⊕ Nat)) :
+    WF (stepChecked W subs now r fld wires sel) ∧ (stepChecked W subs now r fld wires sel).shared = [] := by
+  unfold stepChecked
+  cases checkedRelist subs now r fld wires sel with
+  | error _ => exact ⟨hW, hs⟩
+  | ok op => exact step_preserves_independence W hW hs op
+
 theorem wf_empty : WF {} := ⟨by intro r hr; simp at hr, by intro i j ri rj _ hi; simp at hi⟩
 
 /-- For every sequence of construct / assign / mutate-component / append-to-repeat operations on
